@@ -531,7 +531,7 @@ def decode_config(res):
 
 
 # ----------------------------------------------------------------------------- implementation (in-process)
-def dump_input_data(input_data, exchanges, holders):
+def dump_input_data(input_data, exchanges, holders, window=None):
     from datetime import datetime, timezone, timedelta
     from harness import impl
     epoch = datetime(1970, 1, 1, tzinfo=timezone.utc)
@@ -554,12 +554,14 @@ def dump_input_data(input_data, exchanges, holders):
         d["meta"][t.row] = [t.unique_id, t.notes, t.asset]
         if t.transaction_type.name != "MOVE":
             d["intras"][-1].append(t.transaction_type.name)
-    # filtered views must hold the same transactions when no date filter is given
-    for name in ("in", "out", "intra"):
-        u = [t.row for t in getattr(input_data, f"unfiltered_{name}_transaction_set")]
-        f = [t.row for t in getattr(input_data, f"filtered_{name}_transaction_set")]
-        if u != f:
-            d.setdefault("filtered_differs", []).append(name)
+    # filtered views must hold the same transactions when no date filter is given (with a filter -- window = [from_day, to_day] --
+    # the filtered views are the business of the C10 check; here only what was READ must not depend on the window)
+    if not window:
+        for name in ("in", "out", "intra"):
+            u = [t.row for t in getattr(input_data, f"unfiltered_{name}_transaction_set")]
+            f = [t.row for t in getattr(input_data, f"filtered_{name}_transaction_set")]
+            if u != f:
+                d.setdefault("filtered_differs", []).append(name)
     return d
 
 
@@ -583,14 +585,14 @@ def dump_config(cfg):
     return d
 
 
-def impl_parse(ini_path, ods_path, assets_to_parse, exchanges, holders, country="us"):
+def impl_parse(ini_path, ods_path, assets_to_parse, exchanges, holders, country="us", window=None):
     """-> {'config': dump | {'err'..}, 'parsed': [per asset {'ok': dump} | {'err': kind, 'msg'}]} ; parsing stops at the first error
     (as the run does)"""
     from harness import impl
     out = {"parsed": []}
     try:
         from rp2.ods_parser import open_ods, parse_ods
-        cfg = impl_config(ini_path, country)
+        cfg = impl_config(ini_path, country, *(window or (None, None)))
         out["config"] = {"ok": dump_config(cfg)}
     except Exception as exc:  # noqa: BLE001
         out["config"] = {"err": impl.err_kind(exc), "msg": str(exc)[:300]}
@@ -603,7 +605,7 @@ def impl_parse(ini_path, ods_path, assets_to_parse, exchanges, holders, country=
     for asset in assets_to_parse:
         try:
             data = parse_ods(cfg, asset, handle)
-            d = dump_input_data(data, exchanges, holders)
+            d = dump_input_data(data, exchanges, holders, window)
             out["parsed"].append({"ok": d})
         except Exception as exc:  # noqa: BLE001
             out["parsed"].append({"err": impl.err_kind(exc), "msg": str(exc)[:300]})
@@ -627,7 +629,7 @@ def run_job(job):
     res = {"lines": [], "secs": None}
     try:
         write_ods(ods, job["sheets"])
-        res["impl"] = impl_parse(ini, ods, job["parse"], job["exchanges"], job["holders"], job.get("country", "us"))
+        res["impl"] = impl_parse(ini, ods, job["parse"], job["exchanges"], job["holders"], job.get("country", "us"), job.get("window"))
         for i, asset in enumerate(job["parse"]):
             try:
                 cells = read_cells(ods, asset)
